@@ -327,6 +327,22 @@ def _run_bounded(ctx):
 
 def replay(rec):
     case = rec["case"]
+    if "job" not in case:
+        # the multi-file / symlink domains and the syntactic key obligations are re-run as a whole (they take seconds)
+        from vf.core import Ctx
+
+        c = Ctx("C09")
+        if case.get("kind") == "symlink":
+            bounded_symlinks(c)
+        elif case.get("kind") == "multi-file-set":
+            bounded_multifile_sets(c)
+        else:
+            _key_obligations(c, "C09")
+        print(f"replay C09: re-ran the {case.get('kind', 'key-obligation')} domain: {len(c.violations)} violation(s)")
+        if c.violations:
+            print(f"VIOLATION property=C09 replay={rec.get('_path', '')}")
+            return 1
+        return 0
     job = case["job"]
     root = Path(tempfile.mkdtemp(prefix="vf_c09_"))
     old = os.environ.get("PYDRA_HASH_CACHE")
